@@ -43,6 +43,22 @@ def _has_quant(ob):
     return has_quant(ob.goal) or any(has_quant(a) for a in ob.assumptions)
 
 
+def guarded_check(s, timeout_ms):
+    """s.check() with a watchdog: z3 occasionally ignores its `timeout` inside the sequence solver (seen: > 20 minutes on a 2 s budget);
+    a timer thread interrupts the context after twice the budget, which makes check() return `unknown` (or raise, mapped to unknown)."""
+    import threading
+
+    t = threading.Timer(max(1.0, timeout_ms / 1000.0 * 2 + 1), lambda: s.ctx.interrupt())
+    t.daemon = True
+    t.start()
+    try:
+        return s.check()
+    except z3.Z3Exception:
+        return z3.unknown
+    finally:
+        t.cancel()
+
+
 def _contains_quant(e):
     seen, stack = set(), [e]
     while stack:
@@ -101,11 +117,7 @@ def _z3_check(ob, timeout_ms):
     for a in ob.assumptions:
         s.add(a)
     s.add(z3.Not(ob.goal))
-    try:
-        r = s.check()
-    except z3.Z3Exception as e:
-        r = z3.unknown
-        ob.detail = "z3 exception: %s" % e
+    r = guarded_check(s, timeout_ms)
     if r == z3.unsat:
         ob.verdict = "discharged"
     elif r == z3.sat:
@@ -183,10 +195,7 @@ def _cone_check(ob, timeout_ms):
     for a in kept:
         s.add(a)
     s.add(z3.Not(ob.goal))
-    try:
-        r = s.check()
-    except z3.Z3Exception:
-        return True
+    r = guarded_check(s, timeout_ms)
     if r == z3.unsat:
         ob.verdict = "discharged"
         ob.solver = "z3-%s" % z3.get_version_string()
@@ -210,10 +219,7 @@ def _cone_check(ob, timeout_ms):
     s2.set("timeout", min(timeout_ms, 3000))
     for a in rest:
         s2.add(a)
-    try:
-        r2 = s2.check()
-    except z3.Z3Exception:
-        r2 = z3.unknown
+    r2 = guarded_check(s2, min(timeout_ms, 3000))
     if r2 == z3.unsat:
         # the path condition outside the cone is contradictory on its own: an infeasible path, nothing to prove on it
         ob.verdict = "discharged"
@@ -280,7 +286,7 @@ def solve_one(ob, timeout_ms=10000, use_cvc5=True, cross=False, finite=True, ski
             s2.set("timeout", min(timeout_ms, 5000))
             for f in finite_instance(ob.assumptions, ob.goal):
                 s2.add(f)
-            r2 = s2.check()
+            r2 = guarded_check(s2, min(timeout_ms, 5000))
             if r2 == z3.unknown:
                 # still weaker: drop every quantified assumption (candidate only, like the above)
                 from .interp import has_quant
@@ -292,7 +298,7 @@ def solve_one(ob, timeout_ms=10000, use_cvc5=True, cross=False, finite=True, ski
                         if not has_quant(a):
                             s2.add(a)
                     s2.add(z3.Not(ob.goal))
-                    r2 = s2.check()
+                    r2 = guarded_check(s2, min(timeout_ms, 5000))
             if r2 == z3.sat:
                 ob.verdict = "refuted"
                 ob.via = "finite-instantiation"
